@@ -19,7 +19,7 @@ def rich_pair(rnd):
     act = df.copy(deep=True)
     cols = list(df.columns)
     mut = rnd.choice(['copy', 'copy', 'cell', 'null', 'name', 'order', 'droprow', 'addrow', 'addcol', 'dropcol', 'type',
-                      'relabel', 'rowswap', 'emptynull', 'emptynull', 'emptynull'])
+                      'relabel', 'rowswap', 'emptynull', 'emptynull', 'emptynull', 'catlist', 'catlist', 'catnull'])
     expect = 'fail'
     if mut == 'copy':
         expect = 'pass'
@@ -37,6 +37,23 @@ def rich_pair(rnd):
             act.loc[act.index[i], c] = None
         else:
             df.loc[df.index[i], c] = None
+    elif mut in ('catlist', 'catnull'):
+        ccols = [c for c in cols if kinds[c] == 'category' and str(df[c].dtype) == 'category']
+        if not ccols or len(df) == 0:
+            return None
+        c = rnd.choice(ccols)
+        if mut == 'catlist':
+            # the same values and the same nulls; one side merely declares a category that no row uses
+            act[c] = act[c].cat.add_categories(['zzzz (unused)'])
+            expect = 'pass'
+        else:
+            # a null on one side against the LAST category label on the other
+            last = df[c].cat.categories[-1] if len(df[c].cat.categories) else None
+            idx = [i for i, v in enumerate(df[c].tolist()) if v == last]
+            if last is None or not idx:
+                return None
+            act = df.copy(deep=True)
+            act.loc[act.index[idx[0]], c] = None
     elif mut == 'relabel':
         # the same values in the same positions under other row labels (a filtered subset, a string index):
         # the row index is not one of the things compared
@@ -66,7 +83,7 @@ def rich_pair(rnd):
                     return None
                 if k in ('int64', 'uint8', 'bool', 'int_extreme'):
                     return None                     # a null would change the dtype as well
-                act.loc[act.index[i], c] = None if k in ('object_str', 'objbool', 'dateobj', 'many_cats', 'allnull_obj') else (
+                act.loc[act.index[i], c] = None if k in ('object_str', 'objbool', 'dateobj', 'many_cats', 'allnull_obj', 'longtext') else (
                     pd.NaT if k.startswith('dt_') else (np.nan if k in ('float64', 'float_special', 'allnull_float') else pd.NA))
             else:
                 if pd.isna(old):
